@@ -25,17 +25,6 @@ Ltac abs_lra := cbn [eval nth fn1_sem cmp_dec]; cmp_cases; unfold Rabs; repeat d
 Ltac expand_evaluated H :=
   cbn [evaluated app eval nth fn1_sem cmp_dec] in H.
 
-Lemma tanh_bounds t : -1 < tanh t < 1.
-Proof.
-  unfold tanh, sinh, cosh. pose proof (exp_pos t). pose proof (exp_pos (- t)).
-  set (c := (exp t + exp (- t)) / 2). set (s := (exp t - exp (- t)) / 2).
-  assert (Hc : 0 < c) by (unfold c; lra).
-  assert (Hs : - c < s < c) by (unfold c, s; lra).
-  pose proof (Rinv_0_lt_compat c Hc) as Hi.
-  assert (Hci : c * / c = 1) by (apply Rinv_r; lra).
-  unfold Rdiv. generalize dependent (/ c). intros ic Hi Hci. nra.
-Qed.
-
 (* softplus (softplus.cc:11-14): every argument of exp is <= 0; every intermediate value
    (including the result) has magnitude <= |x| + 2 *)
 Theorem softplus_intermediates_bounded x :
@@ -49,16 +38,6 @@ Proof.
   - pose proof (exp_le_1 x ltac:(lra)) as He. pose proof (ln1p_bounds _ He) as Hl.
     split; intros s Hin; expand_evaluated Hin; rewrite Ed in Hin; expand_evaluated Hin; in_cases Hin;
       try discriminate; try (injection Hin as <-); try subst s; abs_lra.
-Qed.
-
-(* sigmoid (sigmoid.cc:11): no exp at all in the tanh form; intermediates within |x| + 2 *)
-Theorem sigmoid_intermediates_bounded x :
-  exp_args_nonpos [x] ast_fw_sigmoid /\ intermediates_within (Rabs x + 2) [x] ast_fw_sigmoid.
-Proof.
-  unfold exp_args_nonpos, intermediates_within, ast_fw_sigmoid.
-  pose proof (tanh_bounds (1 / 2 * x)) as Ht.
-  split; intros s Hin; expand_evaluated Hin; in_cases Hin;
-    try discriminate; try (injection Hin as <-); try subst s; abs_lra.
 Qed.
 
 (* one pairwise update of logsumexp (logsumexp.cc:25-27) *)
